@@ -2,12 +2,13 @@
  * addrxlat_map_* functions with allocation results chosen by the case. */
 #include "common.h"
 
-static int fail_next_realloc, fail_next_malloc, fail_next_calloc;
-static unsigned long n_realloc_calls;
+static int fail_next_malloc, fail_next_calloc;
+/* fail the k-th realloc call made by the current operation (0 = none) */
+static unsigned long fail_kth_realloc, n_realloc_calls;
 static void *verif_realloc(void *p, size_t sz)
 {
-	++n_realloc_calls;
-	if (fail_next_realloc) { fail_next_realloc = 0; return NULL; }
+	if (++n_realloc_calls == fail_kth_realloc)
+		return NULL;
 	return realloc(p, sz);
 }
 static void *verif_malloc(size_t sz)
@@ -60,9 +61,13 @@ int main(int argc, char **argv)
 				addrxlat_range_t r;
 				addrxlat_status st;
 				r.endoff = hx(fld[2]); r.meth = (addrxlat_sys_meth_t)shx(fld[3]);
-				fail_next_realloc = (fld[4][0] == '0');
+				/* last field: 1 = every allocation succeeds, 0 = the first
+				 * realloc of this call fails, k >= 2 = the k-th fails */
+				n_realloc_calls = 0;
+				fail_kth_realloc = (fld[4][0] == '0') ? 1 :
+					(fld[4][0] == '1') ? 0 : strtoul(fld[4], NULL, 10);
 				st = addrxlat_map_set(map, hx(fld[1]), &r);
-				fail_next_realloc = 0;
+				fail_kth_realloc = 0;
 				printf("S%d=", (int)st);
 			} else if (fld[0][0] == 'Q') {
 				printf("Q"); pshx((long long)addrxlat_map_search(map, hx(fld[1]))); putchar('=');
